@@ -254,9 +254,21 @@ def run_multipoint(c, o):
     for f in flows[1:]:
         for k in ("W0", "fuel_mass"):
             f[k] = flows[0][k]  # shared inputs
-    mp = zoo.build_as(dict(surfaces=[s], flows=flows))
+    mp = zoo.build_as(dict(surfaces=[s], flows=flows), setup=False)
+    # the multipoint objective component of the repository's multipoint examples
+    from openaerostruct.integration.multipoint_comps import MultiCD
+    import warnings as _w
+
+    mp.model.add_subsystem("multi_CD", MultiCD(n_points=npts), promotes_outputs=[("CD", "CD_sum")])
+    for i in range(npts):
+        mp.model.connect("AS_point_%d.CD" % i, "multi_CD.%d_CD" % i)
+    with _w.catch_warnings():
+        _w.simplefilter("ignore")
+        mp.setup()
+    zoo.configure_solvers(mp, {}, npts)
     zoo.run(mp)
     tags = [s["fem_model_type"], "npts=%d" % npts]
+    o.close("multipoint/multi_CD_is_sum", mp.get_val("CD_sum"), sum(float(np.ravel(mp.get_val("AS_point_%d.CD" % i))[0]) for i in range(npts)), rtol=1e-13, tags=tags)
     singles = []
     for i, f in enumerate(flows):
         sp = zoo.build_as(dict(surfaces=[s], flow=f))
